@@ -219,6 +219,17 @@ pub fn seal_response_header(resp_key: &[u8; 16], resp_iv: &[u8; 16], resp_auth: 
     out
 }
 
+/// seal(len = header.len()) | seal(header): a response header of any length, for malformed-content cases
+pub fn seal_response_header_raw(resp_key: &[u8; 16], resp_iv: &[u8; 16], header: &[u8]) -> Vec<u8> {
+    let lk = kdf16(resp_key, &[b"AEAD Resp Header Len Key"]);
+    let li = kdf12(resp_iv, &[b"AEAD Resp Header Len IV"]);
+    let hk = kdf16(resp_key, &[b"AEAD Resp Header Key"]);
+    let hi = kdf12(resp_iv, &[b"AEAD Resp Header IV"]);
+    let mut out = aes_gcm::Aes128Gcm::new_from_slice(&lk).unwrap().encrypt((&li).into(), Payload { msg: &(header.len() as u16).to_be_bytes(), aad: &[] }).unwrap();
+    out.extend_from_slice(&aes_gcm::Aes128Gcm::new_from_slice(&hk).unwrap().encrypt((&hi).into(), Payload { msg: header, aad: &[] }).unwrap());
+    out
+}
+
 /// Returns (header plaintext, consumed).
 pub fn open_response_header(resp_key: &[u8; 16], resp_iv: &[u8; 16], wire: &[u8]) -> Option<(Vec<u8>, usize)> {
     if wire.len() < 18 {
